@@ -413,10 +413,15 @@ class USBStreamOutEndpoint(Elaboratable):
         with m.If(data_is_lost):
             m.d.usb += overflow.eq(1)
 
-        # We'll clear the overflow flag and byte counter when the packet is done.
+        # We'll clear the byte counter when the packet is done.
         with m.Elif(fifo.write_commit | fifo.write_discard):
-            m.d.usb += overflow.eq(0)
             m.d.usb += rx_cnt.eq(0)
+
+        # The overflow flag must survive until we've answered the packet: depending on the bus speed, the
+        # handshake decision is taken before -or well after- the (delayed) end-of-packet strobes above, and a
+        # packet we've discarded must be NAK'd. It's cleared once the host moves on to its next token.
+        with m.If(tokenizer.new_token):
+            m.d.usb += overflow.eq(0)
 
         # We'll toggle our DATA PID each time we issue an ACK to the host [USB 2.0: 8.6.2].
         with m.If(data_response_requested & data_accepted):
